@@ -106,7 +106,7 @@ def main():
         else:
             a = a[1:]
     results = json.load(open(outp)) if os.path.exists(outp) else {}
-    env_check = dict(os.environ, VERIF_REPO=repo)
+    env_check = dict(os.environ, VERIF_REPO=repo, VERIF_SCALE=os.environ.get("VERIF_SCALE", "0.25"), VERIF_MODEL_SHARDS=os.environ.get("VERIF_MODEL_SHARDS", "4"))
     todo = []
     for rel in files:
         lines, ms = mutants_of(os.path.join(repo, rel), rel)
